@@ -138,9 +138,102 @@ impl SubCheck for Complete {
     }
 }
 
+/// Grinding factors of practical size: the nonce search runs far beyond the first few thousand candidates
+/// (2^16..2^20 expected hash evaluations, quick; up to 2^22, thorough) on small single-segment computations.
+pub struct HighGrinding {
+    pub tier: Tier,
+}
+
+impl SubCheck for HighGrinding {
+    type Case = Shape;
+    fn name(&self) -> String {
+        "high-grinding".into()
+    }
+    fn cases(&self, tier: Tier) -> u64 {
+        tier.pick(36, 160)
+    }
+    fn watchdog_secs(&self) -> u64 {
+        600
+    }
+    fn shrink_iters(&self) -> usize {
+        8
+    }
+    fn rule(&self) -> String {
+        "GenAir computations of 8..16 rows without auxiliary segment, every admissible field/hasher pair, grinding factor 16..20 (quick) / 16..22 (thorough): prove, verify, serialize, parse, verify; non-trivial = the nonce found lies beyond the first 65536 candidates; distinct by whole shape".into()
+    }
+    fn required_labels(&self, _t: Tier) -> Vec<String> {
+        vec!["nonce>=2^16".into(), "nonce>=2^18".into()]
+    }
+    fn strategy(&self, tier: Tier) -> BoxedStrategy<Shape> {
+        let p = GenParams { max_log_n: 4, max_grinding: 0, fixed: None, allow_aux: false, allow_degenerate: false };
+        let top = tier.pick(20u8, 22u8);
+        (shape_strategy(&p), 16u8..=top)
+            .prop_map(|(mut s, g)| {
+                s.opts.grinding = g;
+                s.opts.queries = s.opts.queries.min(8);
+                s
+            })
+            .boxed()
+    }
+    fn check(&self, shape: &Shape, obs: &mut Obs) -> CheckResult {
+        let tier = self.tier;
+        crate::dispatch!(shape.field, shape.hasher, run_grind, shape, tier, obs)
+    }
+}
+
+fn run_grind<B: FA, H: ElementHasher<BaseField = B> + Send + Sync>(shape: &Shape, tier: Tier, obs: &mut Obs) -> CheckResult {
+    let inst = realize::<B>(shape, budget(tier));
+    let desc = Arc::new(inst.desc.clone());
+    let options = make_options(&inst.opts)?;
+    obs.label(format!("grinding={}", inst.opts.grinding));
+    obs.label(format!("hasher={}", crate::inst::HASHER_NAMES[crate::inst::admissible(shape.field, shape.hasher).1 as usize]));
+    let proof = match prove_with::<B, H, DefaultRandomCoin<H>>(&desc, &inst.trace, options, None) {
+        ProveOutcome::Proof(p) => p,
+        ProveOutcome::Err(e) => {
+            if is_coin_exhaustion(&e) && B::NAME == "f62" && inst.opts.ext == 3 {
+                obs.label("outside-claim:coin-exhaustion");
+                return Ok(());
+            }
+            return Err(Fail::new("prove/error", format!("proving a valid trace failed: {e}")));
+        },
+        ProveOutcome::Panic(p) => {
+            if is_coin_exhaustion(&p.msg) && B::NAME == "f62" && inst.opts.ext == 3 {
+                obs.label("outside-claim:coin-exhaustion");
+                return Ok(());
+            }
+            return Err(Fail::new(format!("prove/{}", p.key()), format!("proving a valid trace panicked: {} at {}:{}", p.msg, p.file, p.line)));
+        },
+    };
+    obs.nontrivial_if(proof.pow_nonce >= 1 << 16);
+    if proof.pow_nonce >= 1 << 16 {
+        obs.label("nonce>=2^16");
+    }
+    if proof.pow_nonce >= 1 << 18 {
+        obs.label("nonce>=2^18");
+    }
+    match verify_with::<B, H, DefaultRandomCoin<H>>(proof.clone(), &desc, &min_sec0()) {
+        VerifyOutcome::Ok => {},
+        VerifyOutcome::Err(e) => return Err(Fail::new("verify/rejected", format!("honest proof (grinding factor {}, nonce {}) rejected: {e}", inst.opts.grinding, proof.pow_nonce))),
+        VerifyOutcome::Panic(p) => return Err(Fail::new(format!("verify/{}", p.key()), format!("verifier panicked on an honest proof: {} at {}:{}", p.msg, p.file, p.line))),
+    }
+    let bytes = proof.to_bytes();
+    let back = match vf_core::catch(|| Proof::from_bytes(&bytes)) {
+        Ok(Ok(p)) => p,
+        Ok(Err(e)) => return Err(Fail::new("roundtrip/parse-error", format!("honest proof does not parse back: {e}"))),
+        Err(p) => return Err(Fail::new(format!("roundtrip/{}", p.key()), format!("parsing an honest proof panicked: {}", p.msg))),
+    };
+    ensure!(back == proof, "roundtrip/not-equal", "parsed proof differs from the original");
+    match verify_with::<B, H, DefaultRandomCoin<H>>(back, &desc, &min_sec0()) {
+        VerifyOutcome::Ok => Ok(()),
+        VerifyOutcome::Err(e) => Err(Fail::new("roundtrip/rejected", format!("proof rejected after serialization round trip: {e}"))),
+        VerifyOutcome::Panic(p) => Err(Fail::new(format!("roundtrip-verify/{}", p.key()), format!("verifier panicked after round trip: {}", p.msg))),
+    }
+}
+
 pub fn run(run: &mut Run) {
     run.assume("a random out-of-domain point hitting a root of a non-zero polynomial of degree < 2^20 (probability < 2^-40) is assumed away");
     run.assume("runs in which the coin exhausts its 1000 rejection-sampling attempts (cubic extension of f62) are outside the claim and counted under the label outside-claim:coin-exhaustion");
     let tier = run.tier;
     run.sub(&Complete { tier });
+    run.sub(&HighGrinding { tier });
 }
